@@ -293,6 +293,31 @@ impl DependencyGraph {
                 DependencyGraphNode::Input { .. } => None,
             };
             let nodes: Vec<u32> = graph.node_indices().filter_map(comp).collect();
+            // The error handlers and the in-scope transformers of every compute node of the RESULT, looked up here rather
+            // than taken from what the loop happened to ask: a node whose error handler was never looked up shows.
+            verif_eh.clear();
+            verif_tr.clear();
+            for i in graph.node_indices() {
+                let DependencyGraphNode::Compute { component_id } = &graph[i] else {
+                    continue;
+                };
+                if let Some(h) = component_db.error_handler_id(*component_id) {
+                    verif_eh.push((verif_raw(*component_id), verif_raw(*h)));
+                }
+                if let Some(ts) = component_db.transformer_ids(*component_id) {
+                    let in_scope: Vec<u32> = ts
+                        .iter()
+                        .filter(|t| {
+                            root_scope_id.is_descendant_of(
+                                component_db.scope_id(**t),
+                                component_db.scope_graph(),
+                            )
+                        })
+                        .map(|t| verif_raw(*t))
+                        .collect();
+                    verif_tr.push((verif_raw(*component_id), in_scope));
+                }
+            }
             let edges: Vec<(u32, u32)> = graph
                 .edge_indices()
                 .filter_map(|e| {
